@@ -140,7 +140,7 @@ def main():
     lobs = []
     for i, keys in enumerate([(), ('p', 'pid'), ('ti', 'dm', 'bt')]):
         raw, ab = lw.record(keys)
-        lobs.append({'id': 'l%d' % i, 'raw': ab, 'dec': lw.project(decode_direct(lw, raw), default_event())})
+        lobs.append({'id': 'l%d' % i, 'raw': ab, 'empty': lw.sid[''], 'dec': lw.project(decode_direct(lw, raw), default_event())})
 
     def m_log(b):
         b[1]['dec']['process_identifier'] = 0
